@@ -32,15 +32,15 @@ type cvariant struct {
 
 func cvariants(tier string) []cvariant {
 	vs := []cvariant{
-		{"both-arrive-near-penalty-end", config{1, 20000}, []string{"4.9s", "4.9s"}, []int{1, 1}, []string{"f429"}, 0},
-		{"429-races-first-waiter", config{1, 20000}, []string{"0s", "4.9s"}, []int{2, 1}, []string{"f429"}, 0},
-		{"503-ok-race-two-waiters", config{1, 20000}, []string{"0s", "0s"}, []int{2, 2}, []string{"f503", "+100ms", "ok"}, 0},
-		{"ok-403-streak-reset-races-waiter", config{1, 4000}, []string{"5s", "10s"}, []int{1, 1}, []string{"f429", "+5100ms", "ok", "f403"}, 0},
+		{"both-arrive-near-penalty-end", config{Cap: 1, RateMilli: 20000}, []string{"4.9s", "4.9s"}, []int{1, 1}, []string{"f429"}, 0},
+		{"429-races-first-waiter", config{Cap: 1, RateMilli: 20000}, []string{"0s", "4.9s"}, []int{2, 1}, []string{"f429"}, 0},
+		{"503-ok-race-two-waiters", config{Cap: 1, RateMilli: 20000}, []string{"0s", "0s"}, []int{2, 2}, []string{"f503", "+100ms", "ok"}, 0},
+		{"ok-403-streak-reset-races-waiter", config{Cap: 1, RateMilli: 4000}, []string{"5s", "10s"}, []int{1, 1}, []string{"f429", "+5100ms", "ok", "f403"}, 0},
 	}
 	if tier == "thorough" { // a waiter polls through a 5 s and a 10 s penalty: executions of ~1000 steps, one preemption only
 		vs = append(vs,
-			cvariant{"two-429-race-first-waiter", config{2, 4000}, []string{"0s", "10.9s"}, []int{2, 1}, []string{"f429", "+1s", "f408"}, 1},
-			cvariant{"429-ok-403-first-waiter-polls-both", config{1, 4000}, []string{"0s", "10.1s"}, []int{2, 1}, []string{"f429", "+5100ms", "ok", "f403"}, 1})
+			cvariant{"two-429-race-first-waiter", config{Cap: 2, RateMilli: 4000}, []string{"0s", "10.9s"}, []int{2, 1}, []string{"f429", "+1s", "f408"}, 1},
+			cvariant{"429-ok-403-first-waiter-polls-both", config{Cap: 1, RateMilli: 4000}, []string{"0s", "10.1s"}, []int{2, 1}, []string{"f429", "+5100ms", "ok", "f403"}, 1})
 	}
 	return vs
 }
@@ -78,7 +78,7 @@ func cscenario(v cvariant) *vsched.Scenario {
 	}
 	sc.Body = func() {
 		x := vsched.Cur()
-		w.bm = ratelimiter.NewBucketManager(context.Background(), 4, float64(v.Config.Cap), v.Config.rate(), 5*time.Minute)
+		w.bm = ratelimiter.NewBucketManager(context.Background(), 4, v.Config.capF(), v.Config.rate(), 5*time.Minute)
 		var wg sync.WaitGroup
 		for i, n := range v.Acquires {
 			wg.Add(1)
